@@ -35,8 +35,15 @@ type B5 struct {
 	S string
 }
 
+// B6 embeds a struct: the wire may carry (flat, Java-style) fields named like the promoted fields.
+type B6 struct {
+	zoo.Base
+	X int32
+}
+
 func bindingTargets() []interface{} {
 	return []interface{}{
+		&B6{Base: zoo.Base{Id: 61, Name: "base"}, X: 16},
 		&B1{A: 11},
 		&B2{A: 12, S: "s2"},
 		&B3{A: 13, S: "s3", F: true},
@@ -44,6 +51,8 @@ func bindingTargets() []interface{} {
 		&B5{M: map[string]int32{"k": 7}, P: &B5{A: 99, S: "p"}, A: 15, L: []string{"x"}, S: "s5"},
 	}
 }
+
+func tname(v interface{}) string { return reflect.TypeOf(v).Elem().Name() }
 
 func permutations(n int) [][]int {
 	var res [][]int
@@ -107,15 +116,15 @@ func (f fixedPick) Pick(n int, label string) int {
 func init() {
 	core.Register(&core.Prop{
 		ID: "C05", Level: "model_checking",
-		Rule:        "Exhaustive enumeration over reference-encoded objects decoded by the real decoder. Part 1 (definitions): for each of 5 target structs (1..5 fields mixing int, string, bool, nested struct, []string, map, self pointer): every permutation of the definition's field list x every subset of fields dropped x one extra unknown field at every position carrying each of 13 wire kinds (or none) x field names capitalised or not (quick: 5-field target with <=2 of {drop, extra, capitalise} deviations; thorough: full product). Part 2 (positions): the target class at every position p in 0..40 of the stream's definition table, reached by p structurally distinct dummy classes defined and instantiated as earlier list elements or by p definitions hoisted to the front, instance in short form (p<=15) and long form (every p), with the neighbouring classes instantiated around it. Oracle: each Go field holds exactly the wire value of the same-named wire field, dropped fields are zero, nothing after an unknown field is disturbed, every dummy instance shows the values of its own definition. Distinct by construction.",
+		Rule:        "Exhaustive enumeration over reference-encoded objects decoded by the real decoder. Part 1 (definitions): for each of 6 target structs (1..5 fields mixing int, string, bool, nested struct, []string, map, self pointer; one with an embedded struct, whose unknown wire fields are named like the promoted fields): every permutation of the definition's field list x every subset of fields dropped x one extra unknown field at every position carrying each of 13 wire kinds (or none) x field names capitalised or not (quick: 5-field target with <=2 of {drop, extra, capitalise} deviations; thorough: full product). Part 2 (positions): the target class at every position p in 0..40 of the stream's definition table, reached by p structurally distinct dummy classes defined and instantiated as earlier list elements or by p definitions hoisted to the front, instance in short form (p<=15) and long form (every p), with the neighbouring classes instantiated around it. Oracle: each Go field holds exactly the wire value of the same-named wire field, dropped fields are zero, nothing after an unknown field is disturbed, every dummy instance shows the values of its own definition. Distinct by construction.",
 		Assumptions: []string{"unknown-class objects and forward references as unknown-field payloads are part of the alphabet", "the type map binds every dummy wire class name to one Go struct type"},
 		Units: func(tier string) []core.Unit {
 			var us []core.Unit
-			for ti, tv := range bindingTargets() {
-				ti, tv := ti, tv
+			for _, tv := range bindingTargets() {
+				tv := tv
 				n := reflect.TypeOf(tv).Elem().NumField()
 				full := true
-				us = append(us, core.Unit{Name: fmt.Sprintf("defs:B%d", ti+1), Cost: n * n * 10, Run: func(c *core.Ctx) {
+				us = append(us, core.Unit{Name: fmt.Sprintf("defs:%s", tname(tv)), Cost: n * n * 10, Run: func(c *core.Ctx) {
 					tm, nm, _ := Maps(tv)
 					perms := permutations(n)
 					base := zoo.NewDenoter(nm).Denote(tv)
@@ -161,7 +170,13 @@ func init() {
 							if pos > len(cls.Fields) {
 								pos = len(cls.Fields)
 							}
-							cls.Fields = append(cls.Fields[:pos], append([]string{"zzUnknown"}, cls.Fields[pos:]...)...)
+							// the unknown field's name: a name no Go field has, or (for types with an embedded struct)
+							// the name of a field promoted from the embedded struct, which is not a field of the class
+							uname := "zzUnknown"
+							if _, emb := tv.(*B6); emb {
+								uname = []string{"id", "name", "Id", "zzUnknown"}[((extraSel-1)/nExtra+(extraSel-1)%nExtra)%4]
+							}
+							cls.Fields = append(cls.Fields[:pos], append([]string{uname}, cls.Fields[pos:]...)...)
 							vals = append(vals[:pos], append([]*rh.Value{ev.v}, vals[pos:]...)...)
 							extraDesc = fmt.Sprintf("%s at wire position %d", ev.name, pos)
 							c.Cover("extra:" + ev.name)
@@ -169,7 +184,7 @@ func init() {
 						wire.Elems = vals
 						e := rh.NewEncoder(nil)
 						e.Top(wire)
-						desc := fmt.Sprintf("B%d definition order %v dropped %v extra unknown field: %s capitalised=%v", ti+1, perm, drop, extraDesc, capit)
+						desc := fmt.Sprintf("%s definition order %v dropped %v extra unknown field: %s capitalised=%v", tname(tv), perm, drop, extraDesc, capit)
 						if _, err := rh.ParseOne(e.Out); err != nil {
 							c.Report(&core.Violation{Stage: "selfcheck", Kind: "harness", Shape: "R1", Message: err.Error(), Case: desc})
 							return
@@ -189,7 +204,7 @@ func init() {
 					c.Res.States += ex.Stats.Executions
 					c.Res.Transitions += ex.Stats.Transitions
 					c.NontrivialN(ex.Stats.Executions)
-					c.Cover(fmt.Sprintf("defs:B%d", ti+1))
+					c.Cover("defs:" + tname(tv))
 				}})
 			}
 			// part 2: class positions
@@ -276,7 +291,7 @@ func init() {
 			return us
 		},
 		RequireCover: func(string) []string {
-			return []string{"defs:B1", "defs:B5", "positions:hoist=true", "positions:hoist=false", "extra:unknown-class object", "extra:ref to the object itself", "extra:map", "extra:null"}
+			return []string{"defs:B1", "defs:B5", "defs:B6", "positions:hoist=true", "positions:hoist=false", "extra:unknown-class object", "extra:ref to the object itself", "extra:map", "extra:null"}
 		},
 	})
 }
